@@ -29,7 +29,7 @@ def RULE(tier):
         "pre-filled journal (also two requests back to back), a TestRequest, a frame above the expected number, an application "
         "message, the first Logon, the heartbeat path (send_test_req), and an initiator application sending its first Logon while "
         "other tasks send Logout / application messages. EXHAUSTIVE depth-first enumeration of all choice "
-        f"sequences (start a task / open gate k / pause / resume) up to {G[tier]} choices, each schedule re-executed from scratch and then "
+        f"sequences (start a task / open gate k / pause / resume / reset the connection while senders wait in drain) up to {G[tier]} choices, each schedule re-executed from scratch and then "
         "run to completion, plus Hypothesis-drawn longer schedules. Oracle on the bytes written, in wire order: new frames (no "
         "PossDupFlag, not SequenceReset) carry distinct, strictly increasing MsgSeqNums; a PossDup frame repeats a number sent "
         "before with the same body; no task raised anything but FIXConnectionError (in particular no DuplicateSeqNoError); every "
@@ -58,7 +58,8 @@ class Sched:
         self.w = self.b.w
         self.writer = self.b.link.writers[self.b.side]
         self.pending = []
-        self.expected_replay = None  # [label, future]
+        self.expected_replay = None
+        self.failed = False  # [label, future]
         self.tasks = {}
         self.names = list(tasks)
         self.unstarted = list(tasks)
@@ -95,6 +96,9 @@ class Sched:
                 await self.ep.send_msg(FIXMessage(FMsg.NEWORDERSINGLE, {11: f"{name}{i}", 58: f"new {name}{i}"}))
             except FIXConnectionError:
                 pass
+            except ConnectionError:
+                if not self.failed:
+                    self.errors.append((name, "ConnectionError-without-fault", ""))
             except BaseException as e:  # noqa
                 self.errors.append((name, type(e).__name__, str(e)))
                 return
@@ -102,7 +106,7 @@ class Sched:
     async def _hb(self):
         try:
             await self.ep.send_test_req()
-        except FIXConnectionError:
+        except (FIXConnectionError, ConnectionError):
             pass
         except BaseException as e:  # noqa
             self.errors.append(("H", type(e).__name__, str(e)))
@@ -120,7 +124,7 @@ class Sched:
             async def one(msg=msg, name=name):
                 try:
                     await self.ep.send_msg(msg)
-                except FIXConnectionError:
+                except (FIXConnectionError, ConnectionError):
                     pass
                 except BaseException as e:  # noqa
                     self.errors.append((name, type(e).__name__, str(e)))
@@ -176,6 +180,8 @@ class Sched:
         out += [("open", k) for k in range(len(live))]
         if self.writer.paused:
             out.append(("resume",))
+            if self.writer.drain_waiters and not self.failed:
+                out.append(("fail",))  # the connection is reset while senders wait for the buffer to drain
         else:
             out.append(("pause",))
         return out
@@ -187,6 +193,11 @@ class Sched:
             self.open(c[1])
         elif c[0] == "pause":
             self.pause()
+        elif c[0] == "fail":
+            self.failed = True
+            self.writer.fail(ConnectionResetError("simulated reset while draining"))
+            self.w.idle()
+            self._track()
         else:
             self.resume()
 
@@ -283,7 +294,7 @@ def execute(acc, tasks, schedule, origin, judge=True):
                 if hit:
                     bad("gapfill-covers-replayable-message", f"GapFill {lo}->{hi + 1} skips the replayable application message(s) {hit} (a peer honouring it never receives them)")
                     break
-        if s.expected_replay is not None and done:
+        if s.expected_replay is not None and done and not s.failed:
             retr = set()
             for fr in frames:
                 p = ref_parse(fr)
